@@ -9,7 +9,7 @@ from .. import nodegen
 ID = "C12"
 SUITES = ["table", "node"]
 LEAN_MODULES = ["VpnCloud.Proofs.C12", "VpnCloud.Proofs.C12Node", "VpnCloud.Proofs.TableRefine", "VpnCloud.Proofs.GuardsUsed", "VpnCloud.Proofs.C12More"]
-THEOREMS = ["VpnCloud.Proofs.C12." + n for n in ("setClaims_exact", "removeClaims_clears", "housekeep_spec", "lookup_result_mem", "removed_peer_unreachable", "claims_expire")] + [
+THEOREMS = ["VpnCloud.Proofs.C12." + n for n in ("setClaims_exact", "removeClaims_clears", "housekeep_spec", "lookup_result_mem", "removed_peer_unreachable", "claims_expire", "housekeep_compose", "housekeep_idem", "housekeep_keeps_live", "housekeep_fixed")] + [
             "VpnCloud.Proofs.C12Node.tablePeers_handleNet", "VpnCloud.Proofs.C12Node.tablePeers_handleIface", "VpnCloud.Proofs.C12Node.tablePeers_housekeep", "VpnCloud.Proofs.C12Node.tablePeers_connect", "VpnCloud.Proofs.C12Node.next_hop_is_peer", "VpnCloud.Proofs.C12Node.iface_finds_peer", "VpnCloud.Proofs.C12Node.table_points_to_peers", "VpnCloud.Proofs.C12Node.table_points_to_peers'"]
 THEOREMS = THEOREMS + ["VpnCloud.Proofs.TableRefine." + n for n in ('table_refines', 'claims_are_last_announcement', 'disconnected_peer_unreachable', 'history_split', 'duplicate_announce_flushes', 'refinement_fails_at_zero')]
 THEOREMS = THEOREMS + ["VpnCloud.Proofs.GuardsUsed." + n for n in ('claimLive_boundary',)]
